@@ -325,6 +325,23 @@ impl World {
         if matches!(c.kind, CallKind::New) {
             return Ok(());
         }
+        // a leader counts a voter only for what that voter acknowledged to it in this term, and itself
+        // only for what has been reported persisted
+        if c.post.role == StateRole::Leader {
+            for p in &c.post.prs {
+                *self.stats.entry("chk.C04.leader_counts_only_acknowledged").or_insert(0) += 1;
+                let allowed = if p.id == n { c.post.persisted } else { self.ghost.acked_in_term.get(&(p.id, c.post.term)).cloned().unwrap_or(0) };
+                if p.matched > allowed {
+                    let d = format!(
+                        "leader {n} of term {} counts {} as holding index {} but {} (call {})",
+                        c.post.term, p.id, p.matched,
+                        if p.id == n { format!("only {} has been reported persisted locally", allowed) } else { format!("it acknowledged only up to {} in this term", allowed) },
+                        kind_name(c.kind)
+                    );
+                    return Err(self.violation("C04", "C04.leader_commit_quorum_durable", n, d, "matched_beyond_acknowledged".into()));
+                }
+            }
+        }
         let was_or_is_leader = c.pre.role == StateRole::Leader || c.post.role == StateRole::Leader;
         if c.post.commit > c.pre.commit {
             if c.post.role == StateRole::Leader && c.pre.role == StateRole::Leader && c.pre.term == c.post.term {
@@ -572,6 +589,10 @@ impl World {
             }
         }
         if t == MessageType::MsgAppendResponse && !m.reject {
+            let a = self.ghost.acked_in_term.entry((n, m.term)).or_insert(0);
+            if m.index > *a {
+                *a = m.index;
+            }
             let e = self.ghost.acked.entry(n).or_insert((0, 0));
             if m.term > e.0 {
                 *e = (m.term, m.index);
